@@ -19,6 +19,7 @@ struct Item {
         int args_num = 0; // write handler
         int maxsize = 0;  // read/test handler
         int ret = 0;      // what the script will return (informational)
+        int step = -1;    // index of the script step this invocation executes (-1: default step after the script's end)
         int release = 0;  // consumed H of an event handler requests hold release: 1 ok, -1 error
         bool enters_hold = false;
         // V
